@@ -931,7 +931,8 @@ pub(crate) fn eval<
 
         // Sponge chain starts (next row new_start, not Merkle): capacity is never witness-fed.
         // The first capacity element starts at the length tag (fresh capacity 0 `+= cap_tag`); the
-        // rest stay zero.
+        // rest stay zero. Not gated on `is_transition`: the wrap-around from the last row covers
+        // the first row of the table, which no transition reaches.
         for slot in RATE_EXT..WIDTH_EXT {
             for d in 0..D {
                 let tag = if slot == RATE_EXT && d == 0 {
@@ -940,7 +941,6 @@ pub(crate) fn eval<
                     AB::Expr::ZERO
                 };
                 builder
-                    .when_transition()
                     .when(next_new_start)
                     .when(not_merkle.clone())
                     .assert_zero(next_in[slot * D + d] - tag);
